@@ -118,6 +118,33 @@ def run(ctx):
     for body, wall in BODIES:
         for langs in (["en"], None):
             add("naive", body, wall, NAIVE, langs, "")
+    # ---- English selected, but not as the first language tried (languages in the caller's order): every locale gets
+    # the string with its zone removed to look at, not only the first
+    FIRST = ["ja", "zh", "ar", "he", "ko", "th", "ru", "el", "fr", "de"]
+    for name, off in (abbrs if not ctx.quick() else rng.sample(abbrs, 40)):
+        body, wall = BODIES[rng.randrange(1, 3)]
+        add("c11", "%s %s" % (body, name), wall, off, [rng.choice(FIRST[:8]), "en"], name)
+        cases[-1]["kw"]["use_given_order"] = True
+        cases[-1]["api"] = "ddp"
+    for off in (offsets if not ctx.quick() else rng.sample(offsets, 10)):
+        for sp in rng.sample(spellings(off), 2):
+            body, wall = BODIES[rng.randrange(1, 3)]      # (month by name: the first language's own order reads no digits)
+            add("c11", "%s %s" % (body, sp), wall, off, rng.sample(FIRST, 2) + ["en"], sp)
+            cases[-1]["kw"]["use_given_order"] = True
+            cases[-1]["api"] = "ddp"
+    # ---- date-time bodies in other languages, language autodetected, with numeric spellings and the abbreviations of
+    # the regions where those languages are written
+    FOREIGN = [("5 mars 2014 14:30:15", ["CET", "CEST", "WET"]), ("5 марта 2014 14:30:15", ["MSK", "YEKT"]),
+               ("5 de marzo de 2014 14:30:15", ["EST", "ART", "CET"]), ("5 März 2014 14:30:15", ["MEZ", "CET"]),
+               ("5 marzo 2014 14:30:15", ["CET", "PKT"]), ("5 Mart 2014 14:30:15", ["EET"])]
+    aoff = dict(abbrs)
+    for body, names in FOREIGN:
+        for name in names:
+            if name in aoff:
+                for v in (name, name.lower()):
+                    add("c11", "%s %s" % (body, v), [2014, 3, 5, 14, 30, 15, 0], aoff[name], None, name)
+        for off in rng.sample(offsets, 4 if ctx.quick() else len(offsets)):
+            add("c11", "%s %s" % (body, rng.choice(spellings(off))), [2014, 3, 5, 14, 30, 15, 0], off, None, "numeric")
     strings = sorted({c["s"] for c in cases if c["kind"] == "c11"})
     rel = core.run_cases(ctx, "harness.lib", "tz_matches", [{"strings": strings[i::core.NCPU]} for i in range(core.NCPU)])
     matches = {}
@@ -152,7 +179,8 @@ def run(ctx):
         if fid and verdict in ("not-parsed", "naive-result"):
             ctx.known(fid)
             continue
-        ctx.violation({"call": "dateparser.parse(%r%s)" % (c["s"], ", languages=['en']" if c["kw"] else ""), "table_entry": c["name"]}, what,
+        ctx.violation({"call": "%s(%r%s)" % ("dateparser.parse" if c["api"] == "parse" else "DateDataParser(..).get_date_data", c["s"], "".join(", %s=%r" % kv for kv in sorted(c["kw"].items()))),
+                       "settings": c["settings"], "earlier_calls_of_the_process": c.get("pre") or [], "table_entry": c["name"]}, what,
                       expected={"utcoffset_seconds": c["expoff"], "wall": c["wall"]}, observed={"out": r["out"], "off": r["off"], "exc": r["exc"]},
                       extra={"full_case": c})
     desc = {f["id"]: f["signature"].get("text", "") for f in findings}
